@@ -9,9 +9,9 @@ TRUSTED = ("Trusted base: NumPy/SciPy/pandas/matplotlib, the oracle's own refere
            "code they judge) and the generators. Held = held on the executions listed in the evidence file, nothing more.")
 
 PLUMBED = {"C01", "C03", "C04", "C05", "C06", "C07", "C09", "C10", "C11", "C12", "C13", "C14", "C15", "C17"}
-PLUMB = (" A hand-over layer (DESIGN.md section 2a) replays seven history scenarios on the classes of this property (re-run after a parameter change made in "
+PLUMB = (" A hand-over layer (DESIGN.md section 2a) replays eight history scenarios on the classes of this property (re-run after a parameter change made in "
          "four different ways, diagrams looked at, the same object in another setup at another sampling rate, re-added after a decimation, a sibling named like "
-         "the class, twin algorithms / a shared parameter object, several extractions with different arguments) and requires the property's result fields to "
+         "the class, twin algorithms / a shared parameter object, several extractions with different arguments, the same extraction twice) and requires the property's result fields to "
          "equal those of a new algorithm with the current parameters on a new setup with the current data.")
 
 CHECKS = {
@@ -164,7 +164,7 @@ def main():
             "replay_cmd_template": f"./check {pid} --replay {{path}}",
             "engine": "vf",
             "level_claimed": {"category": "exploration", "text": c["text"] + (PLUMB if pid in PLUMBED else "") + " Input classes and histories were widened over "
-                              "nine rounds of independently written breaking changes (DESIGN.md section 5; selftest/RESULTS.md).",
+                              "ten rounds of independently written breaking changes (DESIGN.md section 5; selftest/RESULTS.md).",
                               "design_ref": f"DESIGN.md section {c['ref']}"},
             "level_note": c.get("note", TRUSTED),
             "technique": c["technique"],
